@@ -430,21 +430,32 @@ func (v *FnVC) stableRef(heap string, ref *Term) bool {
 	if v.modAll || v.entry == nil {
 		return false
 	}
-	if ref.Op != "var" {
-		return false
-	}
-	if !strings.HasPrefix(ref.Name, "strlit_") && !v.paramConsts[ref.Name] {
+	key := ref.String()
+	if !(ref.Op == "var" && (strings.HasPrefix(ref.Name, "strlit_") || v.paramConsts[ref.Name])) && !belowBase[key] {
 		return false
 	}
 	for _, m := range v.mods {
-		if m.heap == heap && m.ref.String() == ref.String() {
+		if m.heap != heap {
+			continue
+		}
+		if m.ref.String() == key {
 			return false
 		}
-		if m.heap == heap && m.kind == "array" && !(m.ref.Op == "var" && v.paramConsts[m.ref.Name]) {
-			return false // a modifies target we cannot compare syntactically
+		// a modifies target that is not syntactically comparable with ref: only
+		// safe when both are distinct entry-time parameters
+		if !(m.ref.Op == "var" && v.paramConsts[m.ref.Name] && ref.Op == "var" && v.paramConsts[ref.Name]) {
+			return false
 		}
 	}
 	return true
+}
+
+// noteEntryLoad: a slice read out of an entry-state heap points to memory that
+// existed at entry.
+func (v *FnVC) noteEntryLoad(h *Term, val *Term) {
+	if h.Op == "var" && strings.HasSuffix(h.Name, "@0") && val != nil && val.Sort == SSlice {
+		belowBase[SRef(val).String()] = true
+	}
 }
 
 // assumeClosure: memory safety of Go means every reference stored anywhere in
